@@ -27,7 +27,87 @@ COMMON_TRUST = [
     "Lean driver (lean_exe nvdriver) runs the same definitions the theorems are about",
 ]
 
+# ------------------------------------------------------------------ C05 / C01 (socket level)
+def adv_size(payload):
+    """independent re-implementation of 'advertised EDNS size' for strictly WELL-FORMED queries:
+    header, one question (uncompressed name, <= 255 bytes), then nothing or exactly one OPT RR
+    with root owner whose options tile its RDATA and which ends the message; None otherwise"""
+    try:
+        if len(payload) < 17: return None
+        qd, an, ns, ar = (int.from_bytes(payload[i:i+2], "big") for i in (4, 6, 8, 10))
+        if qd != 1 or an or ns or ar > 1: return None
+        off = 12
+        nlen = 0
+        while True:
+            l = payload[off]
+            if l == 0: off += 1; break
+            if l & 0xC0: return None
+            off += 1 + l
+            nlen += 1 + l
+            if nlen > 254: return None
+        off += 4
+        if off > len(payload): return None
+        if ar == 0:
+            return 512 if off == len(payload) else None
+        if payload[off] != 0: return None
+        typ = int.from_bytes(payload[off+1:off+3], "big")
+        if typ != 41: return None
+        adv = int.from_bytes(payload[off+3:off+5], "big")
+        rdlen = int.from_bytes(payload[off+9:off+11], "big")
+        o = off + 11
+        end = o + rdlen
+        if end != len(payload): return None
+        while o < end:
+            if o + 4 > end: return None
+            o += 4 + int.from_bytes(payload[o+2:o+4], "big")
+        if o != end: return None
+        return adv
+    except IndexError:
+        return None
+
+def oracle_sock(case, impl):
+    """C05/C01 direct checks on what the real proxy sent."""
+    f = case.split(" ")
+    proto, payload = f[0], unhex(f[1])
+    if len(payload) <= 14:
+        return None
+    if impl in ("TIMEOUT", "drop", "SHORT", "close") or impl.startswith("ERR"):
+        return "no reply to a %d-byte %s query: %s" % (len(payload), proto, impl)
+    rep = unhex(impl)
+    if proto == "tcp":
+        if len(rep) < 2 or int.from_bytes(rep[:2], "big") != len(rep) - 2:
+            return "TCP length prefix does not match the body"
+        rep = rep[2:]
+    adv = adv_size(payload)
+    if adv is None:
+        return None   # not a well-formed query of the harness's own shape: only the model diff applies
+    if f[2] in ("S", "E") and len(rep) >= 2 and rep[:2] != payload[:2]:
+        return "reply carries another ID"   # (an 'H' outcome is an upstream message with its own bytes)
+    up = None
+    if f[2] == "S":
+        up = int(f[3])
+    if proto == "udp":
+        lim = max(512, adv)
+        if len(rep) > lim:
+            return "UDP reply of %d bytes exceeds the client's limit %d" % (len(rep), lim)
+        if up is not None and 12 <= up <= 65535:
+            if len(rep) < up and not (len(rep) >= 3 and rep[2] & 2):
+                return "UDP reply shortened from %d to %d bytes without TC" % (up, len(rep))
+            if up <= lim and len(rep) != up:
+                return "answer of %d bytes fits the limit %d but %d bytes were sent" % (up, lim, len(rep))
+    else:
+        if up is not None and 1 <= up <= 65535 and len(rep) != up:
+            return "TCP reply has %d bytes, upstream answer had %d" % (len(rep), up)
+    return None
+
 PROPS = {
+    "C05": dict(
+        lean_module="NV.Props.C05",
+        areas=[dict(name="sock", n_quick=4000, n_thorough=60000, shards_thorough=8, oracle=oracle_sock,
+                    nontrivial=lambda c, i: len(i) > 8)],
+        trusted=COMMON_TRUST + ["kernel UDP/TCP loopback delivery", "translator /verif/extract (constants, truncation block)"],
+        assumptions=["advertised sizes above 65507 are outside the property's quantifier (a UDP datagram cannot carry them)"],
+    ),
     "C02": dict(
         lean_module="NV.Props.C02",
         areas=[dict(name="parse", n_quick=20000, n_thorough=400000, shards_thorough=8,
